@@ -41,14 +41,13 @@ def window_trace(ctx, path, guarded):
             "tw_%s" % guarded, workers=1, timeout=900)
     mm = None
     if not r["ok"]:
-        m = re.search(r'"WINDOW_MISMATCH",\s*"(\w+)",\s*"s",\s*(\d+),\s*"b",\s*'
-                      r'(\d+),\s*"t",\s*(\d+),\s*"q",\s*(\d+),\s*"impl",\s*'
-                      r'(-?\d+),\s*"spec",\s*(-?\d+)', r["out"])
-        if not m:
+        from vlib import printed_tuples
+        ts = printed_tuples(r["out"], "WINDOW_MISMATCH")
+        if not ts:
             raise Infra("Trace_Window failed:\n" + r["out"][-2000:])
-        mm = {"kind": m.group(1), "s": int(m.group(2)), "b": int(m.group(3)),
-              "t": int(m.group(4)), "q": int(m.group(5)),
-              "impl": int(m.group(6)), "spec": int(m.group(7))}
+        t = ts[0]   # [kind, "s", s, "b", b, "t", t, "q", q, "impl", i, "spec", sp]
+        mm = {"kind": t[0], "s": t[2], "b": t[4], "t": t[6], "q": t[8],
+              "impl": t[10], "spec": t[12]}
     return r, mm
 
 
